@@ -6,6 +6,7 @@ CONSTANTS
   MultiNsPrecheck = "all-first"
   RollbackKinds = "mof"
   SchemaListRollback = TRUE
+  DeleteClassUndo = TRUE
   RollbackScope = "repository"
 INVARIANT Atomic
 INVARIANT Completes
